@@ -247,6 +247,16 @@ func pairWalk(orig, dec reflect.Value) string {
 }
 
 func graphCheck(c *core.Ctx, root interface{}, desc, shape string) string {
+	out := graphCheckMaps(c, root, desc, shape, false)
+	if out != "ok" {
+		return out
+	}
+	// the same graph written without a name map: lists and maps are untyped on the wire and are
+	// converted to the field types on the way in
+	return graphCheckMaps(c, root, desc+" (encoded with a nil name map: untyped lists)", shape+" untyped", true)
+}
+
+func graphCheckMaps(c *core.Ctx, root interface{}, desc, shape string, nilNames bool) string {
 	rep := func(stage, kind, msg, detail string) string {
 		c.Report(&core.Violation{Stage: stage, Kind: kind, Shape: shape, Message: msgStrict(msg), Case: desc, Detail: detail})
 		return stage + "/" + kind
@@ -254,6 +264,9 @@ func graphCheck(c *core.Ctx, root interface{}, desc, shape string) string {
 	tm, nm, p := Maps(root)
 	if p != "" {
 		return rep("maps", "panic", p, "")
+	}
+	if nilNames {
+		nm = nil
 	}
 	enc := Encode(root, nm)
 	if !enc.OK() {
@@ -388,8 +401,9 @@ func init() {
 			for fi := range fl {
 				f := fl[fi]
 				maxN := 3
-				maxN = 4
-				_ = fi
+				if tier == "thorough" || fi == 0 || fi == 1 || fi == 3 || fi == 4 || fi == 9 || fi == 14 || fi == 17 {
+					maxN = 4
+				}
 				mn := maxN
 				us = append(us, core.Unit{Name: fmt.Sprintf("graphs:%s:n<=%d", f.name, mn), Cost: 10 * mn * mn * mn, Run: func(c *core.Ctx) {
 					for n := 1; n <= mn; n++ {
@@ -434,7 +448,7 @@ func init() {
 					total *= per
 				}
 				for code := 0; code < total; code++ {
-					for share := 0; share < 4; share++ {
+					for share := 0; share < 8; share++ {
 						nodes := make([]*GLM, n)
 						for i := range nodes {
 							nodes[i] = &GLM{Id: int32(i + 1)}
@@ -492,13 +506,20 @@ func init() {
 							}
 							nodes[0].M2 = nodes[0].M
 						}
+						if share&4 == 4 {
+							// the root's slice is also the slice of one of its own elements
+							if n < 2 || len(nodes[0].L) == 0 || nodes[0].L[len(nodes[0].L)-1] == nodes[0] {
+								continue
+							}
+							nodes[0].L[len(nodes[0].L)-1].L = nodes[0].L
+						}
 						if !c.Begin() {
 							continue
 						}
 						c.NontrivialN(1)
 						c.Res.States++
 						c.Res.Transitions += int64(n)
-						desc := fmt.Sprintf("GLM %d nodes, code %d, same slice in two fields=%v, same map in two fields=%v", n, code, share&1 == 1, share&2 == 2)
+						desc := fmt.Sprintf("GLM %d nodes, code %d, same slice in two fields=%v, same map in two fields=%v, root's slice also held by its last element=%v", n, code, share&1 == 1, share&2 == 2, share&4 == 4)
 						c.Outcome(graphCheck(c, nodes[0], desc, "list-map-fields"))
 					}
 				}
